@@ -237,7 +237,10 @@ class Pred:
         self.unsub: List[Tuple[str, int]] = []
 
 
-def predict(cfg: Dict[Tuple[str, int], str], kind: str) -> Pred:
+def predict(cfg: Dict[Tuple[str, int], str], kind: str, rlv_per_command_drop: bool = False) -> Pred:
+    """Reference semantics.  RLV: the chat message is dropped (once) iff *every* command in it was handled by an addon --
+    what the comment in AddonManager.handle_lludp_message promises.  ``rlv_per_command_drop=True`` models what the tree
+    does at the time of writing (drop_message per handled command), used only to give that defect one specific clause."""
     p = Pred()
 
     def beh(slot):
@@ -328,15 +331,20 @@ def predict(cfg: Dict[Tuple[str, int], str], kind: str) -> Pred:
                     h = True
                     break
             p.rlv_handled.append(h)
-            if h:
+            if not h:
+                all_handled = False
+            elif rlv_per_command_drop:
                 p.claimed = p.claimed_truthy = True
                 if p.fin:
                     all_handled = False   # the per-command drop raises, the loop's except marks it unhandled
                 else:
                     p.fin = True
-            else:
-                all_handled = False
-        handled = True if all_handled else lu_chain()
+        if all_handled:
+            handled = True
+            if not rlv_per_command_drop and not p.fin:
+                p.fin = True
+        else:
+            handled = lu_chain()
     else:
         handled = lu_chain()
     if handled:
@@ -443,35 +451,79 @@ def execute(msg, assign) -> Tuple[List[Dict[str, str]], Dict[str, Any]]:
         pid_in += 1
         return lludp, U.SIMS[0]
 
-    viols: List[Dict[str, str]] = []
     nd = sorted(f"{h}:{b}" for h, k, b in assign)
     tag = f"{kind}:{d}|" + ("+".join(nd) if nd else "default")
-
-    def bad(clause, detail, site=None):
-        viols.append({"clause": clause, "site": site or tag, "detail": detail})
-
-    pm = predict(cfg, kind)
     # ---- the message under test
     ctl.phase = "M"
     data, src = datagram(kind, d, flags, acks, cmd_arg=cfg.get(("cmd", 0)) != "raise_sync")
     _, exc = w.deliver(0, data, src)
     origs = [m for ph, m in ctl.msgs if ph == "M"]
     orig = origs[0] if origs else None
-    n_orig = sum(n for ph, m, n in ctl.emissions if m is orig) if orig is not None else 0
-    log_m = [e[1:] for e in ctl.log if e[0] == "M" and e[1] != "cmd"]
-    cmd_ran = any(e[0] == "M" and e[1] == "cmd" for e in ctl.log)
-    info = {"n_orig": n_orig, "exc": type(exc).__name__ if exc else None, "claimed": pm.claimed, "escape": bool(pm.escape)}
+    obs: Dict[str, Any] = {
+        "exc": exc,
+        "n_orig": sum(n for ph, m, n in ctl.emissions if m is orig) if orig is not None else 0,
+        "log_m": [e[1:] for e in ctl.log if e[0] == "M" and e[1] != "cmd"],
+        "cmd_ran": any(e[0] == "M" and e[1] == "cmd" for e in ctl.log),
+        "n_logged": sum(1 for ph, m in ctl.logged if m is orig) if orig is not None else 0,
+        "fut_done": fut.done() if fut is not None else None,
+        "acks": acks,
+        "alive": bool(region.circuit.is_alive),
+        "probes": [],
+    }
+    # ---- probes: later traffic must be unaffected whatever happened above
+    for pd in (d, IN if d == OUT else OUT):
+        ctl.phase = "probe-" + pd
+        n_log0 = len(ctl.log)
+        data, src = datagram("ordinary", pd, 0, ())
+        psends, pexc = w.deliver(0, data, src)
+        pmsgs = [m for ph, m in ctl.msgs if ph == ctl.phase]
+        po = pmsgs[0] if pmsgs else None
+        peer = U.SIMS[0] if pd == OUT else U.VIEWERS[0]
+        obs["probes"].append({
+            "dir": pd, "exc": pexc,
+            "n_orig": sum(n for ph, m, n in ctl.emissions if m is po) if po is not None else 0,
+            "to_peer": sum(1 for x in psends if x[2] == peer), "sends": [(a_, addr) for a_, _, addr in psends],
+            "log": [e[1:] for e in ctl.log[n_log0:]],
+            "n_logged": sum(1 for ph, m in ctl.logged if m is po) if po is not None else 0,
+        })
+    total = sum(n for _, _, n in ctl.emissions)
+    if total != len(w.sends) - base_sends:
+        raise RuntimeError(f"C07 taps: {len(w.sends) - base_sends} sendto but {total} attributed to messages")
 
+    viols, info = judge(cfg, kind, predict(cfg, kind), obs, tag)
+    if viols and kind in ("rlv1", "rlv2"):
+        # Does the observation match "drop_message per handled RLV command" instead?  Then report that one defect under
+        # its own clause/site (or, if the statement is not violated at all, count it) rather than as a dozen symptoms.
+        viols_now, info_now = judge(cfg, kind, predict(cfg, kind, rlv_per_command_drop=True), obs, tag)
+        if not viols_now:
+            intended = predict(cfg, kind)
+            info = info_now
+            if obs["n_orig"] == 0 and intended.emitted == 1 and not intended.claimed:
+                viols = [{"clause": "rlv-partial-claim", "site": "AddonManager.handle_lludp_message:rlv",
+                          "detail": f"chat with RLV commands handled={intended.rlv_handled}: not every command was handled by an addon, "
+                                    "yet the whole message was dropped (the viewer never sees the unhandled command)"}]
+            else:
+                viols = []
+                info["rlv_per_command_drop_symptom"] = True
+    return viols, info
+
+
+def judge(cfg, kind: str, pm: Pred, obs: Dict[str, Any], tag: str) -> Tuple[List[Dict[str, str]], Dict[str, Any]]:
+    """Pure: compare one execution's observations with a prediction."""
+    viols: List[Dict[str, str]] = []
+
+    def bad(clause, detail, site=None):
+        viols.append({"clause": clause, "site": site or tag, "detail": detail})
+
+    exc, n_orig = obs["exc"], obs["n_orig"]
+    info = {"n_orig": n_orig, "exc": type(exc).__name__ if exc else None, "claimed": pm.claimed, "escape": bool(pm.escape),
+            "log": obs["log_m"]}
     if n_orig > 1:
         bad("at-most-once", f"original datagram put on the wire {n_orig} times")
     if not pm.claimed and n_orig != 1:
         bad("exactly-once-unless-claimed", f"nobody claimed the message but it was emitted {n_orig} times (exception={exc!r})")
     if pm.claimed and n_orig != pm.emitted:
         bad("claim-respected", f"claimed message: model expects {pm.emitted} emission(s) of the original, observed {n_orig}")
-    if kind == "rlv2" and pm.rlv_handled == [True, False] and n_orig == 0 and not _lu_truthy(cfg) \
-            and not any(b in ("take", "sendcopy", "drop", "send") for b in cfg.values()):
-        bad("rlv-partial-claim", "chat with two RLV commands, an addon handled only the first, yet the whole message was dropped "
-                                 "(the viewer never sees the second command)", site="AddonManager.handle_lludp_message:rlv")
     if exc is not None:
         if pm.escape and isinstance(exc, RuntimeError):
             info["rejected"] = pm.escape
@@ -480,49 +532,31 @@ def execute(msg, assign) -> Tuple[List[Dict[str, str]], Dict[str, Any]]:
                 site=f"{type(exc).__name__}@{_first_repo_frame(exc)}|{tag}")
     elif pm.escape:
         info["rejected_not_raised"] = pm.escape
-    if exc is None and not pm.escape:
-        if log_m != pm.log:
+    quiet = exc is None and not pm.escape
+    if quiet:
+        if obs["log_m"] != pm.log:
             bad("later-hooks-run" if pm.raised else "hook-dispatch",
-                f"hook invocations for the message: expected {pm.log}, observed {log_m}")
-        if kind == "command" and cmd_ran != pm.cmd_runs:
-            bad("later-hooks-run" if pm.raised else "hook-dispatch", f"command coroutine ran={cmd_ran}, expected {pm.cmd_runs}")
-        n_logged = sum(1 for ph, m in ctl.logged if m is orig) if orig is not None else 0
-        if n_logged != (1 if pm.logger else 0):
-            bad("bookkeeping-logger", f"message logger called {n_logged} times for the message, expected {1 if pm.logger else 0}"
+                f"hook invocations for the message: expected {pm.log}, observed {obs['log_m']}")
+        if kind == "command" and obs["cmd_ran"] != pm.cmd_runs:
+            bad("later-hooks-run" if pm.raised else "hook-dispatch", f"command coroutine ran={obs['cmd_ran']}, expected {pm.cmd_runs}")
+        if obs["n_logged"] != (1 if pm.logger else 0):
+            bad("bookkeeping-logger", f"message logger called {obs['n_logged']} times for the message, expected {1 if pm.logger else 0}"
                                       f" (a hook raised: {pm.raised})")
-        if fut is not None and pm.acks and not fut.done():
-            bad("bookkeeping-acks", f"piggy-backed ack {acks} for the proxy's own reliable packet was not collected (a hook raised: {pm.raised})")
-        if kind == "close" and pm.dead and region.circuit.is_alive:
+        if obs["fut_done"] is False and pm.acks:
+            bad("bookkeeping-acks", f"piggy-backed ack {obs['acks']} for the proxy's own reliable packet was not collected (a hook raised: {pm.raised})")
+        if kind == "close" and pm.dead and obs["alive"]:
             bad("bookkeeping-region-death", f"CloseCircuit not claimed by any hook but the region is still alive (a hook raised: {pm.raised})")
-    # ---- probes: later traffic must be unaffected whatever happened above
-    exp_probe = predict_probe(cfg, pm) if (exc is None and not pm.escape) else None
-    for pd in (d, IN if d == OUT else OUT):
-        ctl.phase = "probe-" + pd
-        n_log0 = len(ctl.log)
-        data, src = datagram("ordinary", pd, 0, ())
-        psends, pexc = w.deliver(0, data, src)
-        pmsgs = [m for ph, m in ctl.msgs if ph == ctl.phase]
-        po = pmsgs[0] if pmsgs else None
-        n_po = sum(n for ph, m, n in ctl.emissions if m is po) if po is not None else 0
-        peer = U.SIMS[0] if pd == OUT else U.VIEWERS[0]
-        good_peer = [x for x in psends if x[2] == peer]
-        if n_po != 1 or pexc is not None or len(good_peer) < 1:
-            bad("next-datagram-forwarded", f"probe {pd} after the message: emitted {n_po} times, sends={[(a, addr) for a, _, addr in psends]}, exception={pexc!r}")
-        plog = [e[1:] for e in ctl.log[n_log0:]]
-        if exp_probe is not None and plog != exp_probe:
+    exp_probe = predict_probe(cfg, pm) if quiet else None
+    for pr in obs["probes"]:
+        pd = pr["dir"]
+        if pr["n_orig"] != 1 or pr["exc"] is not None or pr["to_peer"] < 1:
+            bad("next-datagram-forwarded", f"probe {pd} after the message: emitted {pr['n_orig']} times, sends={pr['sends']}, exception={pr['exc']!r}")
+        if exp_probe is not None and pr["log"] != exp_probe:
             bad("later-hooks-run" if pm.raised else "hook-dispatch",
-                f"hook invocations for probe {pd}: expected {exp_probe}, observed {plog}", site="probe|" + tag)
-        if exp_probe is not None and po is not None and sum(1 for ph, m in ctl.logged if m is po) != 1:
-            bad("bookkeeping-logger", f"message logger not called exactly once for probe {pd}", site="probe|" + tag)
-    total = sum(n for _, _, n in ctl.emissions)
-    if total != len(w.sends) - base_sends:
-        raise RuntimeError(f"C07 taps: {len(w.sends) - base_sends} sendto but {total} attributed to messages")
-    info["log"] = log_m
+                f"hook invocations for probe {pd}: expected {exp_probe}, observed {pr['log']}", site="probe|" + tag)
+        if exp_probe is not None and pr["n_logged"] != 1:
+            bad("bookkeeping-logger", f"message logger called {pr['n_logged']} times for probe {pd}", site="probe|" + tag)
     return viols, info
-
-
-def _lu_truthy(cfg) -> bool:
-    return any(h == "lu" and b in TRUTHY for (h, k), b in cfg.items())
 
 
 # ---- enumeration ------------------------------------------------------------------------------------------------------
@@ -586,10 +620,12 @@ def _worker(chunk):
         if info.get("rejected"):
             part.count("proxy_rejected_ownership_combo")
             part.count("proxy_rejected_ownership_combo:" + info["rejected"])
-            if len(assign) == 1 or (msg[0] == "command" and sum(1 for a in assign if a[2] in OWN) == 1):
+            if len(assign) == 1:
                 part.count("proxy_rejected_single_addon_action")
         if info.get("rejected_not_raised"):
             part.count("model_predicted_rejection_not_raised")
+        if info.get("rlv_per_command_drop_symptom"):
+            part.count("rlv_per_command_drop_without_statement_violation")
         seen = set()
         for v in viols:
             if v["clause"] in seen:
